@@ -262,10 +262,14 @@ func isContainEndpoint(endpoints []*service.Endpoint, endpoint *service.Endpoint
 }
 
 func (c *Config) emitSvcAddEvent(sw *serviceWrapper) {
+	// NOTE: the event is consumed later by another goroutine, it must not
+	// share the endpoint slice which is modified in place by later updates.
+	endpoints := make([]*service.Endpoint, len(sw.Endpoints))
+	copy(endpoints, sw.Endpoints)
 	evt := &SvcAddEvent{
 		Name:      sw.Service.Name,
 		Config:    sw.Config,
-		Endpoints: sw.Endpoints,
+		Endpoints: endpoints,
 	}
 	c.evtCh <- evt
 }
